@@ -1,0 +1,51 @@
+# -----------------------------------------------------------------------------
+# Verification hook (svalat/PSyclone verification framework).
+#
+# `pause(label, *info)` marks a point in PSyclone at which an external
+# verification harness may suspend the calling thread in order to drive
+# several concurrent runs through a chosen interleaving.  It does nothing
+# unless BOTH the environment variable SVALAT_PSYCLONE_VERIF is set to a
+# non-empty value other than "0" AND a callback has been registered with
+# `register()`.  Normal PSyclone use is therefore unaffected.
+# -----------------------------------------------------------------------------
+
+'''Pause points for the verification harness (no-op in normal use).'''
+
+import os
+
+#: Name of the environment variable that guards every hook.
+GUARD = "SVALAT_PSYCLONE_VERIF"
+
+_CALLBACK = None
+
+
+def enabled():
+    '''
+    :returns: whether the guard variable is set (and not "0").
+    :rtype: bool
+    '''
+    return os.environ.get(GUARD, "") not in ("", "0")
+
+
+def register(callback):
+    '''Register (or, with None, remove) the callable that is invoked as
+    `callback(label, *info)` at every pause point.
+
+    :param callback: the callable or None.
+    :type callback: Optional[Callable]
+    '''
+    global _CALLBACK  # pylint: disable=global-statement
+    _CALLBACK = callback
+
+
+def pause(label, *info):
+    '''A pause point. No-op unless the guard variable is set and a callback
+    has been registered.
+
+    :param str label: name of the step that the caller is about to perform.
+    :param info: additional values describing the step.
+    '''
+    callback = _CALLBACK
+    if callback is None or not enabled():
+        return
+    callback(label, *info)
